@@ -1,7 +1,7 @@
 (* C12 -- satisfiability examples: the hypotheses of the theorems are met by non-trivial concrete vectors *)
 From Coq Require Import String Ascii.
-From Coq Require Import NArith ZArith Bool List.
-From CppUVerif Require Import gen.Gen_C12 lib.Str C13_Model C12_Model C12_Proofs C12_Meaning C12_Select C12_Checked C12_Safe C12_Apply C12_ApplyProofs.
+From Coq Require Import NArith ZArith Bool List Lia.
+From CppUVerif Require Import gen.Gen_C12 lib.Str C13_Model C12_Model C12_Proofs C12_Meaning C12_Select C12_Checked C12_Safe C12_Apply C12_ApplyProofs C12_Seq C12_SeqProofs.
 Import ListNotations.
 Local Open Scope N_scope.
 
@@ -66,3 +66,41 @@ Proof. split; [discriminate | reflexivity]. Qed.
 Example ex_rev_inside : exists r, In r (repeat_loop_rev_inside (set_rev default_config true) 2 (initialize_registry (set_rev default_config true) registry0) []) /\
   r_started r = natural (set_rev default_config true).
 Proof. eexists. split; [right; left; reflexivity | vm_compute; reflexivity]. Qed.
+
+(* ---------------------------------------------------------------- sequences through the static RunAllTests *)
+(* the red team's demo: -zz then -pfoo, no plugins: both rejected with usage, nothing left installed; with the plugin "ok" a third vector
+   -pokx -ggrp is accepted and runs the five tests of the groups *grp* that are not IGNORE_TESTs; test 0 fails *)
+Definition ex_seq : scenario :=
+  SSequence 5 [(2, 1)] 1 [([B "prog"; B "-zz"], []); ([B "prog"; B "-pfoo"], []); ([B "prog"; B "-pokx"; B "-ggrp"], []);
+                          ([B "prog"; B "-b"; B "-ggrp"], [DReverse; DGroup FContains (B "grp")]); ([B "prog"; B "-zz"], [])].
+Example ex_seq_run : yvalid ex_seq = true /\ yrun ex_seq =
+  YSequence [CCall PUsage 0 [] [1]; CCall PUsage 0 [] [1]; CCall PNothing 0 [0; 1; 3; 10; 15] [1]; CCall PNothing 0 [15; 10; 3; 1; 0] [1];
+             CCall PUsage 0 [] [1]] FEnd.
+Proof. split; vm_compute; reflexivity. Qed.
+(* the oracle refuses what the early-return runner shows on the same sequence (its leak plugin, tag 0, still in the chain), a hang, a
+   rejected vector that ran a test, and the same vector rejected first and accepted later *)
+Example ex_seq_spec_judges :
+  yspec ex_seq (YSequence (run_calls_gen true 5 1 (initial_state [(2, 1)]) [[B "prog"; B "-zz"]]) FEnd) = false /\
+  run_calls_gen true 5 1 (initial_state [(2, 1)]) [[B "prog"; B "-zz"]; [B "prog"]] = [CCall PUsage 0 [] [0; 1]; CCall PNothing 0 [0; 1; 3; 4; 6; 7; 8; 10; 11; 12; 13; 15; 16; 17] [0; 0; 1]] /\
+  yspec (SSequence 5 [] 0 [([B "prog"; B "-zz"], [])]) (YSequence [] FHang) = false /\
+  yspec (SSequence 5 [] 0 [([B "prog"; B "-zz"], [])]) (YSequence [CCall PUsage 0 [3] []] FEnd) = false /\
+  yspec (SSequence 5 [] 0 [([B "prog"; B "-pfoo"], []); ([B "prog"; B "-pfoo"], [])]) (YSequence [CCall PUsage 0 [] []; CCall PNothing 0 [] []] FEnd) = false /\
+  yspec (SSequence 5 [] 0 [([B "prog"; B "-zz"], [])]) (YSequence [CCall PUsage 0 [] []] FEnd) = true.
+Proof. repeat split; vm_compute; reflexivity. Qed.
+Example ex_seq_hyps : name_clash [(2, 1); (3, 0)] = false /\ forallb not_runners (user_plugins [(2, 1); (3, 0)]) = true /\
+  spells [B "prog"; B "-b"; B "-ggrp"] [DReverse; DGroup FContains (B "grp")] = true /\
+  is_prefix (B "-p") (B "-pokx") = true /\ (2 < length (B "-pokx"))%nat /\ existsb (fun q => kind_takes (snd q) (B "-pokx")) [(2, 1); (3, 0)] = true /\
+  (exists c, sem 5 [DReverse; DGroup FContains (B "grp")] = Accept c /\ c_repeat c <= REP_CAP /\ list_mode c = false).
+Proof.
+  split; [reflexivity|]. split; [reflexivity|]. split; [vm_compute; reflexivity|]. split; [reflexivity|]. split; [cbn; lia|]. split; [reflexivity|].
+  vm_compute. eexists. split; [reflexivity|]. split; [discriminate | reflexivity].
+Qed.
+(* a user plugin named like the runner's is taken out by the runner's removePluginByName (every plugin of the name): the call leaves the
+   chain without it, and from then on as it is *)
+Example ex_seq_clash : yrun (SSequence 5 [(0, 1); (3, 0)] 0 [([B "prog"; B "-pok"], []); ([B "prog"; B "-pok"], [])]) =
+  YSequence [CCall PNothing 0 [0; 1; 3; 4; 6; 7; 8; 10; 11; 12; 13; 15; 16; 17] [2]; CCall PUsage 0 [] [2]] FEnd.
+Proof. vm_compute. reflexivity. Qed.
+(* -ri and -b stay with the registry: the next plain call runs the IGNORE_TESTs too, backwards (modelled; the oracle leaves it open) *)
+Example ex_seq_sticky : yrun (SSequence 5 [] 0 [([B "prog"; B "-ri"; B "-b"; B "-gx"], []); ([B "prog"; B "-gx"], [])]) =
+  YSequence [CCall PNothing 0 [9; 8] []; CCall PNothing 0 [9; 8] []] FEnd.
+Proof. vm_compute. reflexivity. Qed.
